@@ -274,4 +274,7 @@ Section FifoProofs.
     destruct S as (_ & Hab & _). destruct r; [now rewrite Hab | now destruct Hab as [-> _]].
   Qed.
 
+  Theorem closed_rejects (q : queue) (x : A) : qclosed q = true -> enqueue q x = (false, q).
+  Proof. intros H. unfold enqueue. now rewrite H. Qed.
+
 End FifoProofs.
